@@ -245,6 +245,54 @@ def run_parametrised(rep, rng, n):
                 rep.property_failure(case, f"clause evaluation raised {type(e).__name__}: {str(e)[:80]}")
 
 
+PYARROW_ALIASES = ["bool", "boolean", "int8", "int16", "int32", "int64", "uint8", "uint16", "uint32", "uint64", "float", "float32",
+                   "halffloat", "float16", "double", "float64", "utf8", "large_string", "large_utf8", "binary", "large_binary",
+                   "date32", "date32[day]", "date64", "date64[ms]", "null"]
+
+
+def run_spelled_aliases(rep):
+    """every spelling pandas itself understands (`"<alias>[pyarrow]"`, numpy / extension names) resolves to the type the
+    resolved pandas object resolves to — equal and equally hashed, same kind and width"""
+    import warnings
+    import pandas as pd
+    from pandera.engines import pandas_engine as pe
+    names = [f"{a}[pyarrow]" for a in PYARROW_ALIASES] + \
+        ["int8", "int16", "int32", "int64", "uint8", "uint16", "uint32", "uint64", "float16", "float32", "float64", "bool",
+         "Int8", "Int16", "Int32", "Int64", "UInt8", "UInt16", "UInt32", "UInt64", "Float32", "Float64", "boolean", "string",
+         "string[python]", "category", "datetime64[ns]", "timedelta64[ns]", "object", "complex64", "complex128"]
+    for s_ in names:
+        case = {"mode": "spelled-alias", "spelling": s_}
+        with warnings.catch_warnings():
+            warnings.simplefilter("ignore")
+            try:
+                native = pd.api.types.pandas_dtype(s_)
+            except Exception:  # noqa: BLE001
+                rep.count("spelled:pandas-does-not-know")
+                continue
+            try:
+                via_text = pe.Engine.dtype(s_)
+            except TypeError:
+                rep.count("spelled:unresolved")     # refusing a spelling is not incoherent
+                continue
+            except Exception as e:  # noqa: BLE001
+                rep.property_failure(case, f"Engine.dtype({s_!r}) raised {type(e).__name__}: {str(e)[:80]}")
+                continue
+            try:
+                via_obj = pe.Engine.dtype(native)
+            except Exception as e:  # noqa: BLE001
+                rep.property_failure(case, f"Engine.dtype({native!r}) raised {type(e).__name__} although the text {s_!r} resolves")
+                continue
+        rep.case(case)
+        rep.evaluations += 1
+        rep.count("spelled:resolved")
+        if via_text != via_obj or hash(via_text) != hash(via_obj):
+            rep.property_failure(case, f"pandas: {s_!r} resolves to {via_text!r}, the dtype it spells ({native!r}) resolves to "
+                                       f"{via_obj!r}: not equal / equally hashed")
+        elif type(via_text) is not type(via_obj):
+            rep.property_failure(case, f"pandas: {s_!r} resolves to a {type(via_text).__name__}, the dtype it spells to a "
+                                       f"{type(via_obj).__name__}")
+
+
 def run(tier, replay=None):
     rep = Report(PROP, tier)
     gen = regenerate(("registry",))
@@ -253,6 +301,7 @@ def run(tier, replay=None):
     rng = rng_for(PROP)
     scan_tables(rep, gen["registry"])
     run_parametrised(rep, rng, 300 if tier == "quick" else 5000)
+    run_spelled_aliases(rep)
     return rep.finish(
         rule="exhaustive: every key of every engine's equivalents registry, every distinct resolved data type and every "
              "ordered pair of them (numpy, pandas incl. pyarrow, polars, pyspark), dumped from the engines of the working "
